@@ -708,7 +708,7 @@ pub fn gen_program(run_seed: u64, cfg: &ProgCfg) -> Program {
         calls.push(Call::Blob { data: Bytes::draw(&mut r, len), pipe: Chunk::draw(&mut ch) });
     }
     let items = r.usize_below(cfg.max_items + 1);
-    let pcfg = ProtoCfg { ext_ns: ext_ns.clone(), max_records: 40, std_like_ext_names: false };
+    let pcfg = ProtoCfg { ext_ns: ext_ns.clone(), max_records: 40, std_like_ext_names: r.chance(1, 4) };
     for _ in 0..items {
         match r.weighted(&[5, 3, 3]) {
             0 => {
